@@ -30,16 +30,17 @@ def load(name):
     return getattr(importlib.import_module(mod), fn)
 
 
-def children_of(res, plen, bound):
-    """Prefixes of the schedules that deviate from `res` at exactly one more point (at or after plen)."""
+def children_of(res, plen, bound, window=None):
+    """Prefixes of the schedules that deviate from `res` at exactly one more point (at or after plen).  `window` = (t0, t1)
+    restricts deviations to choice points whose virtual time lies in it (stated in the evidence when used)."""
 
     out   = []
     cost  = 0
     pts   = res.points
     picks = [p[1] for p in pts]
 
-    for i, (n, c, opts, _) in enumerate(pts):
-        if i >= plen:
+    for i, (n, c, opts, _, t) in enumerate(pts):
+        if i >= plen and (window is None or window[0] <= t <= window[1]):
             for j in range(1, n):
                 cj, fault = opts[j]
 
@@ -120,10 +121,10 @@ def run_subtree(item):
                                              for e in res.log if e['ev'] == 'process' and e['inp']][-8:]}
 
                 if item.get('split'):
-                    st['children'] = children_of(res, len(prefix), bound)
+                    st['children'] = children_of(res, len(prefix), bound, scn.get('dev_window'))
                     break
 
-        kids = children_of(res, len(prefix), bound)
+        kids = children_of(res, len(prefix), bound, scn.get('dev_window'))
         kids.reverse()
         stack.extend(kids)
 
